@@ -60,6 +60,7 @@ def run(ctx):
     rule6(ctx, prog, flows)
     rule7(ctx, prog, flows)
     rule11(ctx, prog, flows)
+    rule13(ctx, prog, flows)
     from props.c10 import bfs_expansion
 
     bfs_expansion(ctx, prog, flows, "R-C02-12", "on a directed graph the search then lists nodes that no chain of get_successor_nodes steps reaches: breadth_first_search disagrees with the successor queries and with the stored edges' direction")
@@ -132,8 +133,8 @@ def rule1(ctx, prog, flows, effects):
 REAL = {"HashSet::insert", "HashMap::insert", "Vec::push", "assign", "add_to_adjacency_vec"}
 
 
-def rule2(ctx, prog, flows, effects):
-    ctx.rule("R-C02-2", "add_edge: on every path to Ok the stores of a group are written together (EDGE both/none, SUCC always and twice when undirected, PRED exactly when directed)")
+def rule2(ctx, prog, flows, effects, rid="R-C02-2"):
+    ctx.rule(rid, "add_edge: on every path to Ok the stores of a group are written together (EDGE both/none, SUCC always and twice when undirected, PRED exactly when directed)")
     b = prog.one("creation::Graph::add_edge")
     fl = flows.of(b)
     sp = self_param(b)
@@ -183,10 +184,10 @@ def rule2(ctx, prog, flows, effects):
                 shapes.add(shape)
     ctx.counters["add_edge_ok_path_sets"] = n_paths
     if bad:
-        ctx.violation("R-C02-2", "add_edge-groups", "add_edge has a success path that updates the redundant stores inconsistently: %s" % sorted(set(bad))[:3], loc_str(b.span))
+        ctx.violation(rid, "add_edge-groups", "add_edge has a success path that updates the redundant stores inconsistently: %s" % sorted(set(bad))[:3], loc_str(b.span))
     else:
-        ctx.ok("R-C02-2", "add_edge-groups", "all %d per-path written sets at Ok have a consistent shape: %s" % (n_paths, sorted(shapes)), loc_str(b.span))
-    ctx.require(any(x.startswith("directed") for x in shapes) and any(x.startswith("undirected") for x in shapes), "R-C02-2", "both-kinds", "directed and undirected update shapes both occur", "a whole update shape is missing: %s" % sorted(shapes), loc_str(b.span))
+        ctx.ok(rid, "add_edge-groups", "all %d per-path written sets at Ok have a consistent shape: %s" % (n_paths, sorted(shapes)), loc_str(b.span))
+    ctx.require(any(x.startswith("directed") for x in shapes) and any(x.startswith("undirected") for x in shapes), rid, "both-kinds", "directed and undirected update shapes both occur", "a whole update shape is missing: %s" % sorted(shapes), loc_str(b.span))
     # PRED writes only under specs.directed == true; the doubled SUCC writes only under false
     for (bb, site, f, kind) in index_events(effects, b):
         via = site.callee.short.split("::")[-1] if getattr(site, "k", None) == "call" and site.callee else "assign"
@@ -195,7 +196,7 @@ def rule2(ctx, prog, flows, effects):
         if f in PRED:
             atoms = controlling_atoms(fl, bb)
             ok = any(isinstance(t, tuple) and t[0] == "place" and t[1].endswith("specs.directed") and v is True for (t, v, a) in atoms)
-            ctx.require(ok, "R-C02-2", "pred-directed|%s|%s" % (f, via), "`%s` is written (%s) only when specs.directed" % (f, via), "`%s` is written (%s) without a specs.directed == true test" % (f, via), loc_str(site.span))
+            ctx.require(ok, rid, "pred-directed|%s|%s" % (f, via), "`%s` is written (%s) only when specs.directed" % (f, via), "`%s` is written (%s) without a specs.directed == true test" % (f, via), loc_str(site.span))
     # EDGE writes: name-keyed and position-keyed store get the same kind of write on the same path
     kinds_by_path = {}
     for (bb, site, f, kind) in index_events(effects, b):
@@ -205,7 +206,7 @@ def rule2(ctx, prog, flows, effects):
     for atoms, ks in kinds_by_path.items():
         fk = {f: k for (f, k) in ks}
         ok = set(fk) == EDGE and len(set(fk.values())) == 1
-        ctx.require(ok, "R-C02-2", "edge-pair|" + ",".join(sorted("%s:%s" % x for x in ks)), "under the same conditions both edge stores get the same write (%s)" % sorted(ks), "edge stores written differently under the same conditions: %s" % sorted(ks), loc_str(b.span))
+        ctx.require(ok, rid, "edge-pair|" + ",".join(sorted("%s:%s" % x for x in ks)), "under the same conditions both edge stores get the same write (%s)" % sorted(ks), "edge stores written differently under the same conditions: %s" % sorted(ks), loc_str(b.span))
 
 
 # ---------------------------------------------------------------------------------------- R-C02-3
@@ -491,7 +492,7 @@ RAW_LISTS = ("get_successor_nodes_by_index", "get_predecessor_nodes_by_index")
 DEDUPING = ("dedup", "dedup_by", "dedup_by_key", "unique", "unique_by")
 
 
-def rule11(ctx, prog, flows):
+def rule11(ctx, prog, flows, rid="R-C02-11"):
     """The traversal lists (`successors_vec` / `predecessors_vec`) are the searches' adjacency: one entry per stored
     orientation.  An undirected self-loop (n, n) is pushed by both the forward and the mirrored update, so n's row
     lists n twice; on a directed graph a reciprocal pair puts the neighbour into both rows.  A query that hands NODES
@@ -499,7 +500,7 @@ def rule11(ctx, prog, flows):
     otherwise get_neighbor_nodes disagrees with the neighbour SETS (get_successors_map) and with the stored edges."""
     from guard import ok_producers
 
-    ctx.rule("R-C02-11", "a node list built from the raw traversal rows passes through a de-duplication on every path that returns it")
+    ctx.rule(rid, "a node list built from the raw traversal rows passes through a de-duplication on every path that returns it")
     n = 0
     for p in sorted(prog.bodies):
         b = prog.bodies[p]
@@ -529,9 +530,9 @@ def rule11(ctx, prog, flows):
             n += 1
             dd = sorted(names & set(DEDUPING))
             is_set = "HashSet<" in rty or "BTreeSet<" in rty
-            ctx.require(bool(dd) or is_set, "R-C02-11", "dedup|%s|%d" % (b.short, n), "%s: the nodes taken from %s pass through %s" % (b.short.split("::")[-1], "/".join(raw), "/".join(dd) or "a set"),
+            ctx.require(bool(dd) or is_set, rid, "dedup|%s|%d" % (b.short, n), "%s: the nodes taken from %s pass through %s" % (b.short.split("::")[-1], "/".join(raw), "/".join(dd) or "a set"),
                         "%s returns nodes taken from %s without removing repetitions on this path: the row of a node with an undirected self-loop lists the node twice (and a reciprocal directed pair appears in both rows), so the answer lists a neighbour twice and disagrees with the neighbour sets and with the stored edges" % (b.short, "/".join(raw)), loc_str(site.span))
-    ctx.floor("R-C02-11", "raw_row_node_lists", n, 1)
+    ctx.floor(rid, "raw_row_node_lists", n, 1)
     # ... and the de-duplication removes REPETITIONS: its "same element" predicate is an equality of one and the same
     # field of the two neighbours, with positive polarity (`a.node_index != b.node_index` would remove every element that
     # differs from its predecessor and keep the repetitions)
@@ -554,8 +555,35 @@ def rule11(ctx, prog, flows):
             cb = prog.bodies[cpath]
             paths = predicate_true_paths(flows.of(cb), cb)
             if paths is None:
-                ctx.undecided("R-C02-11", "same-element|" + b.short, "the `same element` predicate of %s in %s is not a conjunction of equalities" % (t.callee.short.split("::")[-1], b.short), loc_str(t.span))
+                ctx.undecided(rid, "same-element|" + b.short, "the `same element` predicate of %s in %s is not a conjunction of equalities" % (t.callee.short.split("::")[-1], b.short), loc_str(t.span))
                 continue
             ok = len(paths) == 1 and len(paths[0]) >= 1 and all(rel == "eq" and pol and len({o.split(".", 1)[-1] for o in ops}) == 1 for (rel, pol, ops) in paths[0])
-            ctx.require(ok, "R-C02-11", "same-element|" + b.short, "the `same element` predicate in %s is an equality of the same field of both elements" % b.short.split("::")[-1],
+            ctx.require(ok, rid, "same-element|" + b.short, "the `same element` predicate in %s is an equality of the same field of both elements" % b.short.split("::")[-1],
                         "the `same element` predicate handed to %s in %s is true under %s: it is not an equality of one field of the two elements, so the de-duplication removes distinct neighbours and keeps repeated ones" % (t.callee.short.split("::")[-1], b.short, [sorted(("%s%s(%s)" % ("" if pol else "!", rel, ",".join(sorted(ops)))) for (rel, pol, ops) in pth) for pth in paths]), loc_str(t.span))
+
+
+def rule13(ctx, prog, flows):
+    """has_nodes(names) is "every name is a node": it answers false only because a membership lookup of one of the
+    names failed.  A `false` decided by anything else -- comparing the LENGTH of the list with the node count, say, which
+    is only valid for lists without repetitions -- disagrees with has_node for the same names, and the queries that use
+    it as their guard (get_edges_for_nodes, multi_source ..) refuse nodes that exist."""
+    ctx.rule("R-C02-13", "has_nodes returns false only on a failed membership lookup of one of the names")
+    b = prog.find("query::Graph::has_nodes")
+    if not b:
+        return
+    b = b[0]
+    n = 0
+    for cb in [b] + list(prog.closures_of(b.path)):
+        if cb.local_ty(0) != "bool":
+            continue
+        fl = flows.of(cb)
+        for (bb, d) in cb.assigns_to(0):
+            rv = getattr(d, "rv", None)
+            if not (rv is not None and rv.k == "use" and rv.ops and rv.ops[0].is_const() and rv.ops[0].const_int() == 0):
+                continue
+            n += 1
+            direct = controlling_atoms(fl, bb, direct=True)
+            ok = any(isinstance(te, tuple) and te[0] == "call" and te[1].split("::")[-1] in ("has_node", "contains_key", "contains", "is_some", "is_none", "get_node") for (te, v, a) in direct) or any(isinstance(te, tuple) and te[0] == "discr" for (te, v, a) in direct)
+            ctx.require(ok, "R-C02-13", "false|%s|%d" % (cb.short.split("::")[-1], n), "has_nodes answers false after a failed lookup",
+                        "has_nodes answers false on a test that is not a membership lookup (%s): a list in which every name is a node -- with a repetition, say -- is reported as missing a node, and every query guarded by has_nodes returns NodeNotFound for nodes that exist" % [fmt_desc(te)[:70] for (te, v, a) in direct], loc_str(d.span))
+    ctx.counters["has_nodes_false_returns"] = n
